@@ -21,7 +21,8 @@ def nontrivial(cfg):
     return from_default or len(cfg['variants']) > 1
 
 
-def r_property(ctx, mc_runs, required_actions, render_cls, run_calls, dom, assumptions, rule, trace_module='TraceR', trace_cfg='TraceR.cfg', prelude=''):
+def r_property(ctx, mc_runs, required_actions, render_cls, run_calls, dom, assumptions, rule, trace_module='TraceR', trace_cfg='TraceR.cfg', prelude='',
+               extra_records=None):
     corpus = rpipe.model_check(ctx, mc_runs, required_actions)
     if not corpus:
         raise ToolError('empty corpus')
@@ -34,6 +35,11 @@ def r_property(ctx, mc_runs, required_actions, render_cls, run_calls, dom, assum
         ctx.violation({'kind': 'does-not-compile', 'cfg': corpus[idx - 1]},
                       {'what': 'the impl generated for this accepted configuration does not compile cleanly, so the property cannot hold for it',
                        'source': r.item(), 'diagnostics': msgs})
+    if extra_records:
+        # records read off the in-process expansion of the same items (expansion-level facts the specification predicts)
+        with open(trace, 'a') as f:
+            for e in extra_records(renders, dropped):
+                f.write(json.dumps(e, separators=(',', ':')) + '\n')
     res = rpipe.validate_trace(ctx, corpus_path, trace, trace_module, trace_cfg)
     recs = rpipe.load_lines(trace, res['bad'])
     per_type = {}
@@ -172,13 +178,24 @@ def c04(ctx):
             return ['run_cmp_layout::<%s, _>(&mut out, &dom, Some(&total_cmp_of::<%s>));' % (r.name, r.name)]
         return ['run_cmp_layout::<%s, _>(&mut out, &dom, None);' % r.name]
 
+    def disc_types(renders, dropped):
+        import re as _re
+        exe = xchan.build(ctx)
+        todo = [r for r in renders if r.idx not in dropped and len(r.cfg['variants']) >= 2]
+        out = []
+        for r, x in zip(todo, xchan.expand(exe, [{'id': r.idx, 'text': r.item(derive=False)} for r in todo])):
+            tys = set(_re.findall(r'self_discriminant\s*:\s*(\w+)', x.get('out') or ''))
+            out.append({'ev': 'op', 't': r.idx, 'op': 'disctype', 'ty': ','.join(sorted(tys)) if x['outcome'] == 'ok' else x['outcome']})
+        return out
+
     r_property(ctx, runs, ['DoSeal', 'DoBegin', 'Step', 'Return'], LayoutRender, calls, [0, 1],
                COMMON_ASSUMPTIONS + ['payload constructors (probes::mk_*) are order-preserving on the value domain',
                                      'memory layout is outside TLA+: the specification reads discriminants only; the harness supplies payload types with '
                                      'niches / zero size, #[repr] variants and three neighbour-byte placements per comparison'],
                'enums within the bounds of the MC_C04 cfg: variant shapes (unit / one payload) x explicit discriminants (negative, gaps, descending, > 127) x #[repr] x '
                'payload types x {PartialOrd alone, PartialOrd+Ord}; all ordered pairs of values, each comparison under three neighbour-byte placements; '
-               'non-trivial = more than one variant or an explicit discriminant')
+               'non-trivial = more than one variant or an explicit discriminant; the integer type the impls compare discriminants in is read off the in-process expansion of '
+               'every item and must be the one the specification infers (DiscTypeOf)', extra_records=disc_types)
 
 
 # ---------------------------------------------------------------- C07
@@ -356,6 +373,7 @@ def c10(ctx):
     quick = ctx.tier == 'quick'
     runs = [{'module': 'MC_C10', 'cfg': 'MC_C10_quick.cfg', 'workers': 8}] if quick else \
            [{'module': 'MC_C10', 'cfg': 'MC_C10_thorough.cfg', 'workers': 12, 'timeout': 3000, 'heap': '16g'}]
+    runs.append({'module': 'EduceWide', 'cfg': 'Wide_C10.cfg', 'workers': 2})   # 12-field variants, markers at two-digit positions
 
     def calls(r):
         return ['run_into::<%s, %d, _>(&mut out, &dom);' % (r.name, {'A': 1, 'B': 2}[t]) for t in r.opts['targets']]
